@@ -190,6 +190,33 @@ Example C15_order_stop_exec_rejects :
   order_stop_b steps [0;1] [([97], true); ([98], true)] = false.
 Proof. repeat split; reflexivity. Qed.
 
+(* The scenario-level pause min_waiting_time, same generality plus a clock oracle
+   [o_elapsed] (time.Since(startAt) read after the last step).  A shot whose steps all succeed
+   ends with a sleep of the remainder, so it lasts max(time spent, min_waiting_time) >=
+   min_waiting_time, and — given that the step pauses really elapsed — at least
+   max(sum of the written pauses, min_waiting_time); a shot with a failing step does not wait. *)
+Theorem C15_min_waiting :
+  forall (W Src Req Rend Resp V : Type) (rname : Req -> bytes)
+         (o_pre : Req -> tree Src V -> W -> W * option (vars V))
+         (o_render : Req -> tree Src V -> W -> W * option Rend)
+         (o_exec : Rend -> W -> W * option Resp)
+         (o_post : Req -> Resp -> W -> W * option (vars V))
+         (o_status : Resp -> Z) (o_elapsed : W -> Z)
+         (src : Src) (steps : list (Req * Z)) (minw : Z) (w : W),
+  let '(evs, w1, out, fin) :=
+    shoot_timed W Src Req Rend Resp V rname o_pre o_render o_exec o_post o_status o_elapsed src steps minw w in
+  match out with
+  | Done =>
+      (o_elapsed w1 + fin = Z.max (o_elapsed w1) minw)%Z /\
+      (minw <= o_elapsed w1 + fin)%Z /\ (0 <= fin)%Z /\
+      pauses Src Rend V evs = pauses_spec Req 0 steps /\
+      ((sum_pauses (pauses Src Rend V evs) <= o_elapsed w1)%Z ->
+       (Z.max (sum_pauses (pauses_spec Req 0 steps)) minw <= o_elapsed w1 + fin)%Z)
+  | FailedAt _ _ => fin = 0%Z
+  end.
+Proof. exact shoot_min_waiting. Qed.
+Print Assumptions C15_min_waiting.
+
 (* Variable flow, same generality.  Whenever the templater is called for step j (named nm,
    own preprocessor output pv) it receives a tree whose data-source part is the shot's
    source and in which request [name] is visible exactly as [visible h nm pv name] says:
